@@ -1314,6 +1314,11 @@ pub fn faulted_histories_part(thorough: bool, prop: &str) -> (Vec<Violation>, Va
                             v.extend(sc.run(h, &Plan::Ids(vec![i]), &mut st));
                         }
                         v.extend(sc.run(h, &Plan::Kind('F'), &mut st));
+                        if let Ok((s2, n2)) = sc.count_requests_nopunch(h) {
+                            for i in s2..n2 {
+                                v.extend(sc.run(h, &Plan::NoPunchIds(vec![i]), &mut st));
+                            }
+                        }
                         // every write of one flush's write-back fails together, and every pair of them
                         for ids in sc.flush_write_ids(h) {
                             v.extend(sc.run(h, &Plan::Ids(ids.clone()), &mut st));
@@ -1384,6 +1389,12 @@ pub fn fault_check() -> i32 {
     for (g, kinds, cfgn, depth, pairs) in plans {
         for img in images::initial_images(&g, &kinds) {
             let sc = FaultScenario { img: img.clone(), cfg: cfg_of(&g, cfgn), cfg_name: cfgn.to_string(), crash_oracle: false };
+            {
+                // a request failing while the device is opened, qcow2_prep_io() retried
+                let (n, v) = sc.open_fault_runs();
+                total.runs += n;
+                run.add_all(v);
+            }
             let mut alphabet = images::crash_alphabet(&g);
             alphabet.retain(|o| !matches!(o, Op::Sync));
             let hists = all_histories(&alphabet, depth);
@@ -1415,6 +1426,14 @@ pub fn fault_check() -> i32 {
                         v.extend(sc.run(h, &Plan::Kind(k), &mut st));
                     }
                     v.extend(sc.run(h, &Plan::PunchUnsupported, &mut st));
+                    // hole punching unsupported and one request failing (e.g. the zero-write fallback)
+                    if depth <= 3 {
+                        if let Ok((s2, n2)) = sc.count_requests_nopunch(h) {
+                            for i in s2..n2 {
+                                v.extend(sc.run(h, &Plan::NoPunchIds(vec![i]), &mut st));
+                            }
+                        }
+                    }
                     // keep one instance per class per history
                     let mut seen = std::collections::HashSet::new();
                     v.retain(|x| seen.insert(x.class.clone()));
